@@ -46,6 +46,12 @@ Prog.vos Prog.vok Prog.required_vos: Prog.v Base.vos Units.vos Contents.vos Cont
 Instr.vo Instr.glob Instr.v.beautified Instr.required_vo: Instr.v Base.vo Units.vo UnitsThm.vo Contents.vo Container.vo
 Instr.vio: Instr.v Base.vio Units.vio UnitsThm.vio Contents.vio Container.vio
 Instr.vos Instr.vok Instr.required_vos: Instr.v Base.vos Units.vos UnitsThm.vos Contents.vos Container.vos
+Heap.vo Heap.glob Heap.v.beautified Heap.required_vo: Heap.v Base.vo Units.vo Contents.vo Container.vo Plate.vo Dilute.vo Solve.vo
+Heap.vio: Heap.v Base.vio Units.vio Contents.vio Container.vio Plate.vio Dilute.vio Solve.vio
+Heap.vos Heap.vok Heap.required_vos: Heap.v Base.vos Units.vos Contents.vos Container.vos Plate.vos Dilute.vos Solve.vos
+HeapThm.vo HeapThm.glob HeapThm.v.beautified HeapThm.required_vo: HeapThm.v Base.vo Units.vo Contents.vo Container.vo Plate.vo Dilute.vo Solve.vo Heap.vo
+HeapThm.vio: HeapThm.v Base.vio Units.vio Contents.vio Container.vio Plate.vio Dilute.vio Solve.vio Heap.vio
+HeapThm.vos HeapThm.vok HeapThm.required_vos: HeapThm.v Base.vos Units.vos Contents.vos Container.vos Plate.vos Dilute.vos Solve.vos Heap.vos
 ConfigThm.vo ConfigThm.glob ConfigThm.v.beautified ConfigThm.required_vo: ConfigThm.v Base.vo Units.vo UnitsThm.vo Contents.vo Container.vo ContainerThm.vo ContainerThm2.vo Plate.vo
 ConfigThm.vio: ConfigThm.v Base.vio Units.vio UnitsThm.vio Contents.vio Container.vio ContainerThm.vio ContainerThm2.vio Plate.vio
 ConfigThm.vos ConfigThm.vok ConfigThm.required_vos: ConfigThm.v Base.vos Units.vos UnitsThm.vos Contents.vos Container.vos ContainerThm.vos ContainerThm2.vos Plate.vos
@@ -109,6 +115,9 @@ Props/C02.vos Props/C02.vok Props/C02.required_vos: Props/C02.v Base.vos Units.v
 Props/C03.vo Props/C03.glob Props/C03.v.beautified Props/C03.required_vo: Props/C03.v Base.vo Units.vo Contents.vo Container.vo ContainerThm.vo ContainerThm2.vo Dilute.vo Solve.vo Plate.vo PlateThm.vo Prog.vo HistoryThm.vo
 Props/C03.vio: Props/C03.v Base.vio Units.vio Contents.vio Container.vio ContainerThm.vio ContainerThm2.vio Dilute.vio Solve.vio Plate.vio PlateThm.vio Prog.vio HistoryThm.vio
 Props/C03.vos Props/C03.vok Props/C03.required_vos: Props/C03.v Base.vos Units.vos Contents.vos Container.vos ContainerThm.vos ContainerThm2.vos Dilute.vos Solve.vos Plate.vos PlateThm.vos Prog.vos HistoryThm.vos
+Props/C04.vo Props/C04.glob Props/C04.v.beautified Props/C04.required_vo: Props/C04.v Base.vo Units.vo Contents.vo Container.vo Plate.vo Dilute.vo Solve.vo Heap.vo HeapThm.vo
+Props/C04.vio: Props/C04.v Base.vio Units.vio Contents.vio Container.vio Plate.vio Dilute.vio Solve.vio Heap.vio HeapThm.vio
+Props/C04.vos Props/C04.vok Props/C04.required_vos: Props/C04.v Base.vos Units.vos Contents.vos Container.vos Plate.vos Dilute.vos Solve.vos Heap.vos HeapThm.vos
 Props/C05.vo Props/C05.glob Props/C05.v.beautified Props/C05.required_vo: Props/C05.v Base.vo Units.vo UnitsThm.vo Contents.vo Container.vo ContainerThm.vo ContainerThm2.vo Dilute.vo Solve.vo SolveThm.vo HistoryThm.vo
 Props/C05.vio: Props/C05.v Base.vio Units.vio UnitsThm.vio Contents.vio Container.vio ContainerThm.vio ContainerThm2.vio Dilute.vio Solve.vio SolveThm.vio HistoryThm.vio
 Props/C05.vos Props/C05.vok Props/C05.required_vos: Props/C05.v Base.vos Units.vos UnitsThm.vos Contents.vos Container.vos ContainerThm.vos ContainerThm2.vos Dilute.vos Solve.vos SolveThm.vos HistoryThm.vos
